@@ -440,12 +440,35 @@ func c15R3(c *Ctx) {
 			return (f.Atom.Kind == "EQ" && !f.Pol || f.Atom.Kind == "LT" && !f.Pol) && f.Atom.A != nil && f.Atom.A.IsCall("len") && mentionsField(f.Atom.A, "Audience") ||
 				f.Atom.Kind == "EQ" && !f.Pol && f.Atom.B != nil && f.Atom.B.IsCall("len") && mentionsField(f.Atom.B, "Audience")
 		})
+		// membership of a configured token URL in aud, by equality: Audience.Contains(url),
+		// StringInSlice(url, aud) or aud[i] == url. A verdict of the configurable audience
+		// *strategy* (prefix matching by default) is not membership.
+		isURL := func(t *Term) bool { return t.Mentions(func(s *Term) bool { return s.IsCall(".GetTokenURLs") }) }
+		viaStrategy := func(t *Term) bool {
+			return t.Mentions(func(s *Term) bool { return s.IsCall("apply") || s.IsCall(".GetAudienceStrategy") })
+		}
 		audURL := has(func(f Fact) bool {
 			if !f.Pol {
 				return false
 			}
-			for _, t := range []*Term{f.Atom.A, f.Atom.B} {
-				if t != nil && t.Mentions(func(s *Term) bool { return s.IsCall(".GetTokenURLs") }) && (mentionsField(f.Atom.A, "Audience") || f.Atom.B != nil && mentionsField(f.Atom.B, "Audience") || t.IsCall(".Contains") || t.IsCall("fosite.StringInSlice")) {
+			switch f.Atom.Kind {
+			case "B":
+				t := f.Atom.A
+				if viaStrategy(t) {
+					return false
+				}
+				if t.IsCall(".Contains") && len(t.Args) == 2 && mentionsField(t.Args[0], "Audience") && isURL(t.Args[1]) {
+					return true
+				}
+				if t.IsCall("fosite.StringInSlice") && len(t.Args) == 2 && isURL(t.Args[0]) && mentionsField(t.Args[1], "Audience") {
+					return true
+				}
+			case "EQ":
+				a, b := f.Atom.A, f.Atom.B
+				if viaStrategy(a) || viaStrategy(b) {
+					return false
+				}
+				if mentionsField(a, "Audience") && isURL(b) || mentionsField(b, "Audience") && isURL(a) {
 					return true
 				}
 			}
